@@ -277,6 +277,7 @@ type Ctx struct {
 	nepoch        int
 	atCallSeen    map[*AtClause]bool
 	curLoopHead   *ssa.BasicBlock
+	allocRefs     map[string]bool
 	quantVar      string
 	quantOff      string
 }
@@ -417,6 +418,10 @@ func (c *Ctx) allocRef(st *State, hint string) string {
 	n := c.next(st)
 	// freeze the reference in a constant so that later $next updates do not matter
 	ref := c.fresh(hint, "Int")
+	if c.allocRefs == nil {
+		c.allocRefs = map[string]bool{}
+	}
+	c.allocRefs[ref] = true
 	c.assumeAlways(eq(ref, n))
 	if c.dry > 0 && c.wr != nil {
 		c.wr.addComp("$next\x00Int", "")
@@ -780,6 +785,9 @@ func (c *Ctx) strConst(s string) string {
 	if t, ok := c.strConsts[s]; ok {
 		return t
 	}
+	// closed facts about a literal: recorded even when first needed under a quantifier
+	defer func(q int) { c.quant = q }(c.quant)
+	c.quant = 0
 	id := c.prog.strConstID(s)
 	ref := num(int64(-1000 - id))
 	t := fmt.Sprintf("(mkStr %s 0 %d)", ref, len(s))
